@@ -1,11 +1,13 @@
 (* C12 — loss values, derivatives and fast paths agree: property theorems only.
-   Model: Model/C12_Loss.v.  Squared error / fast path / configuration: any commutative ring or ordered field,
+   Model: Model/C12_Loss.v = the code WITH the repairs /verif/fixes/c12-*.diff (that is what the harness compares with
+   the implementation).  The last section keeps, for the record, the refutations about the code as it was before those
+   repairs (definitions named [_prefix]).  Squared error / fast path / configuration: any commutative ring or ordered field,
    axiom-free.  Relative-entropy derivatives: over R with Coquelicot (standard real-number axioms). *)
 From Coq Require Import Reals Arith List QArith Qcanon Lra Lia.
 From Coquelicot Require Import Coquelicot.
 From QV.Core Require Import OF Sums Mat QcOF ROF.
 From QV.Model Require Import C12_Loss.
-From QV.Proofs Require Import C12_Loss C12_Config C12_RelEntropy C12_RelEntropyR C12_Main.
+From QV.Proofs Require Import C12_Loss C12_Config C12_RelEntropy C12_RelEntropyR C12_CovPD C12_Main.
 Import ListNotations.
 
 (* ================= squared error: value, gradient, Hessian (any commutative ring) ================= *)
@@ -66,90 +68,71 @@ Theorem C12_fast_value_gradient_eq_generic : forall (R : CR) ns m nv (W : @wts R
 Proof. exact main_fast_value_gradient_eq_generic. Qed.
 Print Assumptions C12_fast_value_gradient_eq_generic.
 
-(* the code as it is: after set_from_standard_qtomography_option_data the fast object holds the same weights as the
-   generic one, but its cache is the extension of the weights it held BEFORE the call (untouched if it had none) *)
-Theorem C12_fast_cache_is_built_from_previous_weights : forall (R : CR) m md (c : @wts R) k (st st' : @fstate R),
-  config_fast m md c k st = COk st' ->
-  config_generic md c k (f_w st) = COk (f_w st') /\
-  f_ext st' = match f_w st with Some w => Some (ext_of m w) | None => f_ext st end.
-Proof. exact main_fast_cache_is_built_from_previous_weights. Qed.
-Print Assumptions C12_fast_cache_is_built_from_previous_weights.
-
-(* FULL statement that fails: "for every configuration, fast value = generic value for the same data, weights, mode".
-   Witness (2 outcomes, 1 schedule, weights [[3,0],[0,0]] then [[5,0],[0,0]]): a fresh fast object evaluates with the
-   identity (value 2 instead of 3), a reused one with the previous data set's weights (3 instead of 5). *)
-Theorem C12_fast_path_weights_stale_refuted :
-  exists (c1 c2 : nat -> @mat Qc_OF) (A : @mat Qc_OF) (b q v : @vec Qc_OF) (st1 st2 : @fstate Qc_OF),
-    config_fast 2 MInvSample None (Some c1) fresh = COk st1 /\
-    config_generic MInvSample None (Some c1) None = COk (f_w st1) /\
-    fast_value 2 1 (f_ext st1) A b q v <> se_value 1 2 1 (f_w st1) A b q v /\
-    fast_value 2 1 (f_ext st1) A b q v = se_value 1 2 1 None A b q v /\
-    config_fast 2 MInvSample None (Some c2) st1 = COk st2 /\
-    config_generic MInvSample None (Some c2) (f_w st1) = COk (f_w st2) /\
-    fast_value 2 1 (f_ext st2) A b q v <> se_value 1 2 1 (f_w st2) A b q v /\
-    fast_value 2 1 (f_ext st2) A b q v = se_value 1 2 1 (f_w st1) A b q v.
-Proof. exact fast_stale_witness. Qed.
-Print Assumptions C12_fast_path_weights_stale_refuted.
-
-(* with the proposed fix (cache rebuilt / cleared after the weights are installed) the fast class agrees with the
-   generic one after ANY configuration history on a fresh object *)
-Theorem C12_fast_after_fix_agrees_all_histories : forall (R : CR) ns m nv (steps : list (@cstep R)) (st' : @fstate R)
-    (A : @mat R) (b q v : @vec R),
-  run_fast_fixed m steps fresh = COk st' ->
-  run_generic steps None = COk (f_w st') /\
-  fast_value (ns * m) nv (f_ext st') A b q v = se_value ns m nv (f_w st') A b q v /\
-  forall al, fast_grad (ns * m) nv (f_ext st') A b q v al = se_grad ns m nv (f_w st') A b q v al.
-Proof. exact @fixed_fast_agrees. Qed.
-Print Assumptions C12_fast_after_fix_agrees_all_histories.
+(* after ANY history of configurations (any modes, any data) and direct set_weight_matrices calls on an object whose
+   cache was consistent to begin with (a fresh object is) the fast class holds the weights the generic class holds
+   and returns the same value and gradient; it raises exactly when the generic class raises *)
+Theorem C12_fast_agrees_all_histories : forall (R : CR) ns m nv (steps : list (@cstep R)) (st : @fstate R) (A : @mat R) (b q v : @vec R),
+  ext_matches (ns * m) m (f_w st) (f_ext st) ->
+  (forall st', run_fast m steps st = COk st' ->
+     run_generic steps (f_w st) = COk (f_w st') /\
+     fast_value (ns * m) nv (f_ext st') A b q v = se_value ns m nv (f_w st') A b q v /\
+     forall al, fast_grad (ns * m) nv (f_ext st') A b q v al = se_grad ns m nv (f_w st') A b q v al) /\
+  (run_fast m steps st = CErr -> run_generic steps (f_w st) = CErr).
+Proof. exact main_fast_agrees_all_histories. Qed.
+Print Assumptions C12_fast_agrees_all_histories.
 
 (* ================= weighting modes ================= *)
 
-(* the modes that do take effect in the code as it is: custom, the two inverse-covariance modes (when their
-   construction succeeds), and identity on an object that has no weights yet *)
-Theorem C12_modes_effective_partial : forall (R : CR) md (c : @wts R) k (cur : @wts R),
-  (md = MCustom \/ md = MInvSample \/ md = MInvUnbiased \/ (md = MIdentity /\ cur = None)) ->
-  set_weights_by_mode md c k cur = mode_spec md c k.
-Proof. exact @modes_effective. Qed.
-Print Assumptions C12_modes_effective_partial.
+(* EVERY mode the option classes accept takes effect, in the generic and in the fast class, whatever the object held
+   before: the weights after the configuration are those the mode denotes (identity: none; custom: the option's;
+   the three inverse-covariance spellings: the construction for THIS data) and the fast cache is their extension *)
+Theorem C12_modes_effective : forall (R : CR) md (c : @wts R) k (cur : @wts R) m (st : @fstate R),
+  config_generic md c k cur = mode_spec md c k /\
+  match config_fast m md c k st, mode_spec md c k with
+  | COk st', COk w => f_w st' = w /\ f_ext st' = match w with Some w' => Some (ext_of m w') | None => None end
+  | CErr, CErr => True
+  | _, _ => False
+  end.
+Proof. exact main_modes_effective. Qed.
+Print Assumptions C12_modes_effective.
 
-(* FULL statement that fails: "every accepted mode takes effect".  The accepted spelling
-   "unbiased_inverse_covariance" matches no branch: the object keeps whatever weights it had. *)
-Theorem C12_alias_mode_ignored_refuted :
-  (forall (R : CR) (c : @wts R) k (cur : @wts R), set_weights_by_mode MAliasUnbiasedInv c k cur = COk cur) /\
-  exists (c1 : nat -> @mat Qc_OF) (A : @mat Qc_OF) (b q v : @vec Qc_OF) (W Wspec : @wts Qc_OF),
-    config_generic MAliasUnbiasedInv None (Some c1) None = COk W /\ mode_spec MAliasUnbiasedInv None (Some c1) = COk Wspec /\
-    se_value 1 2 1 W A b q v <> se_value 1 2 1 Wspec A b q v.
-Proof. exact main_alias_mode_ignored_refuted. Qed.
-Print Assumptions C12_alias_mode_ignored_refuted.
+(* the result of a configuration depends only on (mode, option weights, data), not on the object's history *)
+Theorem C12_configuration_history_independent : forall (R : CR) m md (c : @wts R) k (cur cur' : @wts R) (st st' : @fstate R),
+  config_generic md c k cur = config_generic md c k cur' /\ config_fast m md c k st = config_fast m md c k st'.
+Proof. exact main_configuration_history_independent. Qed.
+Print Assumptions C12_configuration_history_independent.
 
-(* "identity" on a reused object keeps the previous weights (also finding 14 / property C13) *)
-Theorem C12_identity_mode_keeps_old_weights_refuted :
-  exists (c1 : nat -> @mat Qc_OF) (A : @mat Qc_OF) (b q v : @vec Qc_OF) (W1 W2 Wspec : @wts Qc_OF),
-    config_generic MInvSample None (Some c1) None = COk W1 /\ config_generic MIdentity None None W1 = COk W2 /\
-    mode_spec MIdentity None None = COk Wspec /\ se_value 1 2 1 W2 A b q v <> se_value 1 2 1 Wspec A b q v.
-Proof. exact identity_mode_witness. Qed.
-Print Assumptions C12_identity_mode_keeps_old_weights_refuted.
+(* the inverse-covariance construction works for ANY number of outcomes: weights exist, carry the symmetrised inverse on
+   the leading (m-1)x(m-1) block and zeros on the last row / column, are symmetric, and give the reduced quadratic form *)
+Theorem C12_inverse_covariance_all_outcome_counts : forall (F : OF) ns m (invs : nat -> @mat F),
+  exists w, inv_cov_weights F ns m invs = Some w /\
+    (forall j x y, w j x y = lead_block F m (sym_half F (invs j)) x y) /\
+    wsym ns m (Some w) /\
+    (forall k (inv : @mat F) (d : @vec F), qfm (S k) (lead_block F (S k) inv) d = qfm k inv d).
+Proof. exact main_inverse_covariance_all_outcome_counts. Qed.
+Print Assumptions C12_inverse_covariance_all_outcome_counts.
 
-(* FULL statement that fails: "the inverse-covariance modes take effect for any number of outcomes".
-   The slice assignment as coded raises for EVERY outcome count other than 2 (so the witness is m = 3). *)
-Theorem C12_inverse_covariance_shape_refuted : forall (F : OF) ns m (invs : nat -> @mat F) md (custom cur : @wts F),
-  (1 <= ns)%nat -> (1 <= m)%nat -> m <> 2%nat -> md = MInvSample \/ md = MInvUnbiased ->
-  config_generic md custom (inv_cov_weights F false ns m invs) cur = CErr.
-Proof. exact inverse_modes_raise. Qed.
-Print Assumptions C12_inverse_covariance_shape_refuted.
+(* the symmetrisation "(inv + inv.T)/2" in the code changes nothing on the exact inverse: the inverse of a symmetric
+   matrix is symmetric (so the weights are exactly the inverse of the regularised covariance block) *)
+Theorem C12_inverse_covariance_weights_are_the_inverse_block : forall (F : OF) k (M inv : @mat F),
+  msym k M -> is_inverse F k M inv ->
+  msym k inv /\ meq k k (sym_half F inv) inv /\
+  (forall x y, (x < S k)%nat -> (y < S k)%nat -> lead_block F (S k) (sym_half F inv) x y = lead_block F (S k) inv x y).
+Proof. exact main_inverse_covariance_weights_are_the_inverse_block. Qed.
+Print Assumptions C12_inverse_covariance_weights_are_the_inverse_block.
 
-(* with the proposed fix (W[:row-1,:col-1] = inverse): weights exist for every outcome count, carry the inverse on the
-   leading block and zeros on the last row / column, are symmetric when the inverse is, give the reduced quadratic
-   form, and coincide with the present behaviour for 2 outcomes *)
-Theorem C12_inverse_covariance_after_fix : forall (F : OF) ns m (invs : nat -> @mat F),
-  (exists w, inv_cov_weights F true ns m invs = Some w /\
-     forall j x y, (j < ns)%nat -> w j x y = if ((x <? m - 1) && (y <? m - 1))%bool then invs j x y else c0 F) /\
-  (forall inv : @mat F, msym (m - 1) inv -> msym m (fun x y => if ((x <? m - 1) && (y <? m - 1))%bool then inv x y else c0 F)) /\
-  (forall k (inv : @mat F) (d : @vec F),
-     qfm (S k) (fun x y => if ((x <? S k - 1) && (y <? S k - 1))%bool then inv x y else c0 F) d = qfm k inv d) /\
-  (forall inv : @mat F, exists W W', place_inv F 2 inv = Some W /\ place_inv_fixed F 2 inv = Some W' /\ forall x y, W x y = W' x y).
-Proof. exact main_inverse_covariance_after_fix. Qed.
-Print Assumptions C12_inverse_covariance_after_fix.
+(* the matrix handed to np.linalg.inv — leading block of (diag(q) - q q^T)/ncov plus I/n32 — is positive definite for
+   every outcome count (q_i >= 0, sum of the leading entries <= 1, ncov > 0, n32 > 0): its quadratic form is >= 0 and
+   vanishes only at 0, so its kernel is trivial (a singular matrix is never inverted) *)
+Theorem C12_inverse_covariance_block_positive_definite : forall (F : OF) k (q : @vec F) ncov n32,
+  (forall i, (i < k)%nat -> kle F (c0 F) (q i)) -> kle F (sumn k q) (c1 F) ->
+  kle F (c0 F) ncov -> ncov <> c0 F -> kle F (c0 F) n32 -> n32 <> c0 F ->
+  forall x : @vec F,
+    kle F (c0 F) (qfm k (extracted F q ncov n32) x) /\
+    (qfm k (extracted F q ncov n32) x = c0 F -> forall i, (i < k)%nat -> x i = c0 F) /\
+    ((forall a, (a < k)%nat -> mv k (extracted F q ncov n32) x a = c0 F) -> forall i, (i < k)%nat -> x i = c0 F).
+Proof. exact main_regularised_block_positive_definite. Qed.
+Print Assumptions C12_inverse_covariance_block_positive_definite.
 
 (* the oracle np.linalg.inv: what the executed check certifies determines the inverse uniquely; the covariance
    block that is inverted is symmetric *)
@@ -160,16 +143,27 @@ Theorem C12_inverse_certificate : forall (F : OF) k (M inv inv' : @mat F),
 Proof. exact main_inverse_certificate. Qed.
 Print Assumptions C12_inverse_certificate.
 
-(* FULL statement that fails: "custom weights given in the option are used by the relative entropy".
-   _sets_weight_by_mode is never called: the configuration leaves the weights as they were; witness on the gradient. *)
-Theorem C12_relative_entropy_custom_weights_ignored_refuted :
-  (forall (R : CR) (custom cur : option (@vec R)), config_re custom cur = cur) /\
-  exists (custom : @vec Qc_OF) (A : @mat Qc_OF) (b q v : @vec Qc_OF),
-    config_re (Some custom) None = None /\ config_re_spec true (Some custom) = Some custom /\
-    re_grad Qc_OF 1 2 1 (config_re (Some custom) None) weps weps A b q v O
-      <> re_grad Qc_OF 1 2 1 (config_re_spec true (Some custom)) weps weps A b q v O.
-Proof. exact main_relative_entropy_custom_weights_ignored_refuted. Qed.
-Print Assumptions C12_relative_entropy_custom_weights_ignored_refuted.
+(* relative entropy: both accepted modes take effect (custom: the option's weights; identity: none), in the generic
+   and in the fast class, and the fast cache is usable afterwards *)
+Theorem C12_re_modes_effective : forall (R : CR) m cm (custom cur : option (@vec R)) (st : @rstate R),
+  config_re cm custom cur = config_re_spec cm custom /\
+  r_w (config_re_fast m cm custom st) = config_re_spec cm custom /\ rstate_ok m (config_re_fast m cm custom st).
+Proof. exact main_re_modes_effective. Qed.
+Print Assumptions C12_re_modes_effective.
+
+(* after ANY history of configurations and set_weights calls on a configured fast relative-entropy object: it holds the
+   weights the generic object holds, value()/gradient() find their cache (no AttributeError) and return the generic
+   value and gradient (non-negative data; any ordered field, any ln, any outcome count) *)
+Theorem C12_re_fast_agrees_all_histories : forall (F : OF) (ln : F -> F) ns m (steps : list (@rstep F)) (st : @rstate F)
+    epsq epsp (A : @mat F) (p q : @vec F),
+  rstate_ok m st -> (forall i, (i < ns * m)%nat -> kle F (c0 F) (q i)) ->
+  let st' := run_re_fast m steps st in
+  r_w st' = run_re steps (r_w st) /\
+  exists sel, re_fast_sel st' = COk sel /\
+    re_fast_value_at F ln (ns * m) sel epsq epsp p q = re_value_at F ln ns m (r_w st') epsq epsp p q /\
+    forall al, re_fast_grad_at F (ns * m) sel epsq epsp A p q al = re_grad_at F ns m (r_w st') epsq epsp A p q al.
+Proof. exact main_re_fast_agrees_all_histories. Qed.
+Print Assumptions C12_re_fast_agrees_all_histories.
 
 (* ================= relative entropy ================= *)
 
@@ -235,6 +229,71 @@ Theorem C12_re_clipped_region_value_is_flat : forall (epsq epsp q p s : R), p < 
 Proof. exact main_re_clipped_region_value_is_flat. Qed.
 Print Assumptions C12_re_clipped_region_value_is_flat.
 
+(* ================= for the record: the code as it was BEFORE the repairs ([_prefix] definitions) =================
+   True statements about definitions labelled "as coded before fix c12-..." in Model/C12_Loss.v.  The harness does not
+   use these definitions; the check reports the corresponding violation again if the implementation falls back to them. *)
+Local Close Scope R_scope.
+
+(* before fix c12-se-fast-extended-weights: after the configuration the fast object held the same weights as the generic
+   one, but its cache was the extension of the weights it held BEFORE the call (untouched if it had none) *)
+Theorem C12_before_fix_fast_cache_is_built_from_previous_weights : forall (R : CR) m md (c : @wts R) k (st st' : @fstate R),
+  config_fast_prefix m md c k st = COk st' ->
+  config_generic_prefix md c k (f_w st) = COk (f_w st') /\
+  f_ext st' = match f_w st with Some w => Some (ext_of m w) | None => f_ext st end.
+Proof. exact main_fast_cache_prefix. Qed.
+Print Assumptions C12_before_fix_fast_cache_is_built_from_previous_weights.
+
+(* "fast value = generic value for the same data, weights, mode" FAILED.  Witness (2 outcomes, 1 schedule, weights
+   [[3,0],[0,0]] then [[5,0],[0,0]]): a fresh fast object evaluated with the identity (value 2 instead of 3), a reused
+   one with the previous data set's weights (3 instead of 5). *)
+Theorem C12_before_fix_fast_path_weights_stale_refuted :
+  exists (c1 c2 : nat -> @mat Qc_OF) (A : @mat Qc_OF) (b q v : @vec Qc_OF) (st1 st2 : @fstate Qc_OF),
+    config_fast_prefix 2 MInvSample None (Some c1) fresh = COk st1 /\
+    config_generic_prefix MInvSample None (Some c1) None = COk (f_w st1) /\
+    fast_value 2 1 (f_ext st1) A b q v <> se_value 1 2 1 (f_w st1) A b q v /\
+    fast_value 2 1 (f_ext st1) A b q v = se_value 1 2 1 None A b q v /\
+    config_fast_prefix 2 MInvSample None (Some c2) st1 = COk st2 /\
+    config_generic_prefix MInvSample None (Some c2) (f_w st1) = COk (f_w st2) /\
+    fast_value 2 1 (f_ext st2) A b q v <> se_value 1 2 1 (f_w st2) A b q v /\
+    fast_value 2 1 (f_ext st2) A b q v = se_value 1 2 1 (f_w st1) A b q v.
+Proof. exact fast_stale_witness. Qed.
+Print Assumptions C12_before_fix_fast_path_weights_stale_refuted.
+
+(* before fix c12-se-alias-mode: the accepted spelling "unbiased_inverse_covariance" matched no branch *)
+Theorem C12_before_fix_alias_mode_ignored_refuted :
+  (forall (R : CR) (c : @wts R) k (cur : @wts R), set_weights_by_mode_prefix MAliasUnbiasedInv c k cur = COk cur) /\
+  exists (c1 : nat -> @mat Qc_OF) (A : @mat Qc_OF) (b q v : @vec Qc_OF) (W Wspec : @wts Qc_OF),
+    config_generic_prefix MAliasUnbiasedInv None (Some c1) None = COk W /\ mode_spec MAliasUnbiasedInv None (Some c1) = COk Wspec /\
+    se_value 1 2 1 W A b q v <> se_value 1 2 1 Wspec A b q v.
+Proof. exact main_alias_mode_ignored_refuted. Qed.
+Print Assumptions C12_before_fix_alias_mode_ignored_refuted.
+
+(* before fix c12-se-identity-mode-reset: "identity" on a reused object kept the previous weights *)
+Theorem C12_before_fix_identity_mode_keeps_old_weights_refuted :
+  exists (c1 : nat -> @mat Qc_OF) (A : @mat Qc_OF) (b q v : @vec Qc_OF) (W1 W2 Wspec : @wts Qc_OF),
+    config_generic_prefix MInvSample None (Some c1) None = COk W1 /\ config_generic_prefix MIdentity None None W1 = COk W2 /\
+    mode_spec MIdentity None None = COk Wspec /\ se_value 1 2 1 W2 A b q v <> se_value 1 2 1 Wspec A b q v.
+Proof. exact identity_mode_witness. Qed.
+Print Assumptions C12_before_fix_identity_mode_keeps_old_weights_refuted.
+
+(* before fix c12-se-inverse-covariance-shape: the slice assignment raised for EVERY outcome count other than 2 *)
+Theorem C12_before_fix_inverse_covariance_shape_refuted : forall (F : OF) ns m (invs : nat -> @mat F) md (custom cur : @wts F),
+  (1 <= ns)%nat -> (1 <= m)%nat -> m <> 2%nat -> md = MInvSample \/ md = MInvUnbiased ->
+  config_generic_prefix md custom (inv_cov_weights_prefix F ns m invs) cur = CErr.
+Proof. exact inverse_modes_raise_prefix. Qed.
+Print Assumptions C12_before_fix_inverse_covariance_shape_refuted.
+
+(* before fix c12-re-set-weights-by-mode: _sets_weight_by_mode was never called, the configuration left the weights as
+   they were; witness on the gradient *)
+Theorem C12_before_fix_relative_entropy_custom_weights_ignored_refuted :
+  (forall (R : CR) cm (custom cur : option (@vec R)), config_re_prefix cm custom cur = cur) /\
+  exists (custom : @vec Qc_OF) (A : @mat Qc_OF) (b q v : @vec Qc_OF),
+    config_re_prefix true (Some custom) None = None /\ config_re_spec true (Some custom) = Some custom /\
+    re_grad Qc_OF 1 2 1 (config_re_prefix true (Some custom) None) weps weps A b q v O
+      <> re_grad Qc_OF 1 2 1 (config_re_spec true (Some custom)) weps weps A b q v O.
+Proof. exact main_relative_entropy_custom_weights_ignored_refuted. Qed.
+Print Assumptions C12_before_fix_relative_entropy_custom_weights_ignored_refuted.
+
 (* ================= non-vacuity ================= *)
 Example C12_ex_symmetric_weights : wsym 1 2 (Some (wW 3)) /\ ext_matches (1 * 2) 2 (Some (wW 3)) (Some (ext_of 2 (wW 3))).
 Proof. split.
@@ -242,9 +301,24 @@ Proof. split.
   - apply meq_refl. Qed.
 (* q = (3/4, 1/4), p = (1/2, 1/2), thresholds 1e-3: unclipped *)
 Example C12_ex_unclipped :
-  unclipped (1 * 2) (1 / 1000) (1 / 1000) (fun _ => 1 / 2) (fun i => if Nat.eqb i 0 then 3 / 4 else 1 / 4).
+  unclipped (1 * 2) (1 / 1000)%R (1 / 1000)%R (fun _ => (1 / 2)%R) (fun i => if Nat.eqb i 0 then (3 / 4)%R else (1 / 4)%R).
 Proof. intros i Hi _. destruct i as [|[|i]]; cbn; [split; lra|split; lra|lia]. Qed.
 Example C12_ex_inverse : is_inverse_b Qc_OF 1 (fun _ _ => Q2Qc (2 # 1)) (fun _ _ => Q2Qc (1 # 2)) = true.
 Proof. vm_compute. reflexivity. Qed.
-Example C12_ex_history : exists st', run_fast_fixed 2 [(MCustom, Some (wW 3), None); (MIdentity, None, None); (MInvSample, None, Some (wW 5))] (@fresh Qc_OF) = COk st'.
-Proof. eexists. reflexivity. Qed.
+(* a history on a fresh fast object (fresh is consistent): custom, identity, inverse mode, direct setter *)
+Example C12_ex_history : ext_matches (1 * 2) 2 (f_w (@fresh Qc_OF)) (f_ext (@fresh Qc_OF)) /\
+  exists st', run_fast 2 [SConfig MCustom (Some (wW 3)) None; SConfig MIdentity None None;
+                          SConfig MInvSample None (Some (wW 5)); SSet (Some (wW 3))] (@fresh Qc_OF) = COk st'.
+Proof. split; [exact I|]. eexists. reflexivity. Qed.
+(* hypotheses of C12_inverse_covariance_block_positive_definite: q = (3/4, 1/4), 100 shots *)
+Example C12_ex_pd_hypotheses :
+  (forall i, (i < 2)%nat -> kle Qc_OF (c0 Qc_OF) (wq i)) /\ kle Qc_OF (sumn 2 wq) (c1 Qc_OF) /\
+  kle Qc_OF (c0 Qc_OF) (qn 100) /\ qn 100 <> c0 Qc_OF.
+Proof. split; [|split; [|split]].
+  - intros i Hi. destruct i as [|[|i]]; [| |lia]; apply (k_leb Qc_OF); vm_compute; reflexivity.
+  - apply (k_leb Qc_OF). vm_compute. reflexivity.
+  - apply (k_leb Qc_OF). vm_compute. reflexivity.
+  - apply qc_neq. vm_compute. reflexivity. Qed.
+(* a configured fast relative-entropy object without weights is a valid starting state *)
+Example C12_ex_re_history : rstate_ok 2 {| r_w := None; r_ew := @None (@vec Qc_OF) |}.
+Proof. exact I. Qed.
